@@ -87,6 +87,16 @@ func makeBases(seed int64) *baseInputs {
 }
 
 func textFault(base, kind string, at int, val string) string {
+	if val == "longchain" {
+		// one very long access chain in an otherwise valid rule (dedicated probe of a known finding)
+		if strings.HasPrefix(strings.TrimSpace(base), "rule") || strings.HasPrefix(strings.TrimSpace(base), "Rule") || strings.HasPrefix(strings.TrimSpace(base), "RULE") {
+			if kind == "insert" && at < 3 {
+				return "rule L { when F" + strings.Repeat(".abcdefghij", 700+100*at) + " == 1 then F.X = 1; }"
+			}
+			return base
+		}
+		return base
+	}
 	pos := len(base) * at / 10
 	ins := map[string]string{"bignum": "99999999999999999999999999999", "deep": strings.Repeat("(", 3000), "quote": `"`, "nul": "\x00", "brace": "{",
 		"longname": strings.Repeat("abcdefghij", 10000), "unicode": "é☃\U0001F600\xff\xfe"}[val]
@@ -110,6 +120,30 @@ func textFault(base, kind string, at int, val string) string {
 		return base[:pos] + strings.Repeat(ins+base[pos:min(pos+40, len(base))], 300) + base[pos:]
 	}
 	return base
+}
+
+// recReader records where the loader reads 8 bytes at once: exactly the integer fields (lengths, counts, numbers).
+type recReader struct {
+	r    *bytes.Reader
+	ints []int
+}
+
+func (x *recReader) Read(p []byte) (int, error) {
+	off := int(x.r.Size()) - x.r.Len()
+	n, err := x.r.Read(p)
+	if len(p) == 8 && n == 8 {
+		x.ints = append(x.ints, off)
+	}
+	return n, err
+}
+
+// intFields loads the valid stream through a recording reader and returns the offset of every integer field.
+func intFields(d []byte) []int {
+	rr := &recReader{r: bytes.NewReader(d)}
+	if _, err := ast.NewKnowledgeLibrary().LoadKnowledgeBaseFromReader(rr, true); err != nil {
+		return nil
+	}
+	return rr.ints
 }
 
 // lengthFields lists the offsets that plausibly hold a length or count: every 8-byte little-endian window below 4096
@@ -271,6 +305,10 @@ func cmdLoadChild(args []string) {
 	cs := readFaultCases(*in)
 	b := loadBases(*bases)
 	for i := *from; i < *to && i < len(cs); i++ {
+		if cs[i].Fault.Kind == "sweep8" {
+			sweepAllFields(b, cs[i], i)
+			continue
+		}
 		input := applyFault(b, cs[i], i)
 		fmt.Printf("START %d\n", i)
 		var m0, m1 runtime.MemStats
@@ -291,6 +329,51 @@ func cmdLoadChild(args []string) {
 		fmt.Printf("RESULT %s\n", mustJSON(J{"i": i, "outcome": outcome, "len": len(input), "ms": ms, "alloc": m1.TotalAlloc - m0.TotalAlloc}))
 	}
 	fmt.Println("CHILD-DONE")
+}
+
+// sweepAllFields overwrites EVERY integer field of a valid stream (found with the recording reader) by the fault's
+// value, one at a time, and reports the worst load; the damaged input of the worst case travels with the result.
+func sweepAllFields(b *baseInputs, c *faultCase, i int) {
+	base := c.Input
+	if base == nil {
+		base = b.grb[len(c.Fault.Val)%len(b.grb)]
+	}
+	fields := intFields(base)
+	fmt.Printf("START %d\n", i)
+	var worstAlloc uint64
+	var worstMs int64
+	worstOutcome, worstAt := "ok", -1
+	t00 := time.Now()
+	for _, off := range fields {
+		d := append([]byte{}, base...)
+		orig := binary.LittleEndian.Uint64(d[off:])
+		v, ok := boundaryVal[c.Fault.Val]
+		if !ok {
+			v = map[string]uint64{"len-1": orig - 1, "len+1": orig + 1, "len*2": orig * 2}[c.Fault.Val]
+		}
+		binary.LittleEndian.PutUint64(d[off:], v)
+		var m0, m1 runtime.MemStats
+		runtime.ReadMemStats(&m0)
+		t0 := time.Now()
+		outcome := runLoader("grb", d)
+		ms := time.Since(t0).Milliseconds()
+		runtime.ReadMemStats(&m1)
+		alloc := m1.TotalAlloc - m0.TotalAlloc
+		if strings.HasPrefix(outcome, "panic") || alloc > worstAlloc {
+			if !strings.HasPrefix(worstOutcome, "panic") {
+				worstAlloc, worstMs, worstAt = alloc, ms, off
+				if strings.HasPrefix(outcome, "panic") {
+					worstOutcome = outcome
+				} else {
+					worstOutcome = "ok"
+				}
+			}
+		}
+		if time.Since(t00) > 120*time.Second {
+			break
+		}
+	}
+	fmt.Printf("RESULT %s\n", mustJSON(J{"i": i, "outcome": worstOutcome, "len": len(base), "ms": worstMs, "alloc": worstAlloc, "fields": len(fields), "at": worstAt}))
 }
 
 func mustJSON(v interface{}) string { b, _ := json.Marshal(v); return string(b) }
@@ -318,14 +401,21 @@ func cmdLoadFaults(args []string) {
 	bases := makeBases(*seed)
 	saveBases(bases, basesPath)
 	defer os.Remove(basesPath)
-	bad, done, children := 0, 0, 0
+	bad, done, children, swept := 0, 0, 0, 0
 	var maxAlloc, maxMs int64
 	outcomes := map[string]int{}
 	loaders := map[string]int{}
 	report := func(i int, what string, rec J) {
 		bad++
 		withInput := *cs[i]
-		withInput.Input = applyFault(bases, cs[i], i)
+		if cs[i].Fault.Kind == "sweep8" {
+			withInput.Input = cs[i].Input
+			if withInput.Input == nil {
+				withInput.Input = bases.grb[len(cs[i].Fault.Val)%len(bases.grb)]
+			}
+		} else {
+			withInput.Input = applyFault(bases, cs[i], i)
+		}
 		line, _ := json.Marshal(J{"fam": "fault", "fault": cs[i].Fault, "want": "Bounded", "input": withInput.Input})
 		b, _ := json.Marshal(J{"line": json.RawMessage(line), "idx": i, "seed": *seed, "what": what, "got": rec, "fault": cs[i].Fault})
 		w.Write(b)
@@ -352,9 +442,11 @@ func cmdLoadFaults(args []string) {
 					Len     int64  `json:"len"`
 					Ms      int64  `json:"ms"`
 					Alloc   int64  `json:"alloc"`
+					Fields  int    `json:"fields"`
 				}
 				must(json.Unmarshal([]byte(line[7:]), &rec))
 				done++
+				swept += rec.Fields
 				loaders[cs[rec.I].Fault.Loader]++
 				key := rec.Outcome
 				if strings.HasPrefix(key, "panic") {
@@ -397,6 +489,6 @@ func cmdLoadFaults(args []string) {
 			must(fmt.Errorf("child failed outside a case: %v %s", runErr, stderr.String()))
 		}
 	}
-	st, _ := json.Marshal(J{"cases": done, "disagreements": bad, "children": children, "max_alloc_bytes": maxAlloc, "max_ms": maxMs, "outcomes": outcomes, "loaders": loaders})
+	st, _ := json.Marshal(J{"cases": done, "disagreements": bad, "children": children, "max_alloc_bytes": maxAlloc, "max_ms": maxMs, "outcomes": outcomes, "loaders": loaders, "integer_fields_swept": swept})
 	fmt.Println("STATS", string(st))
 }
